@@ -1,22 +1,35 @@
 """C12 — the reply to RCPT TO follows the documented filter configuration (qsmtpd/commands.c:smtp_rcpt,
 qsmtpd/backends/user_vpopm/getfile.c + vpop.c, lib/control.c loaders)."""
 import runlib as R
+import c12_rfgen as RF
 
 ID = 'C12'
-COQ_TARGETS = ['Props/Properties_C12.vo']
-PROPS_FILES = ['Props/Properties_C12.v']
-THEOREMS = ['C12_combine', 'C12_documented_is_function', 'C12_inherit', 'C12_global_keys', 'C12_syntax', 'C12_plain_files', 'C12_spacebug_sticky', 'C12_refuted', 'C12_spf_temp_class_witness', 'C12_checker_sound_partial', 'C12_unfixed_refuted']
+COQ_TARGETS = ['Props/Properties_C12.vo', 'Props/Properties_C12_filters.vo']
+PROPS_FILES = ['Props/Properties_C12.v', 'Props/Properties_C12_filters.v']
+THEOREMS = ['C12_combine', 'C12_documented_is_function', 'C12_inherit', 'C12_global_keys', 'C12_syntax', 'C12_plain_files', 'C12_spacebug_sticky', 'C12_refuted', 'C12_spf_temp_class_witness', 'C12_checker_sound_partial', 'C12_unfixed_refuted',
+            'C12_getfile_precedence', 'C12_listfile_plain', 'C12_listfile_inherit', 'C12_listfile_total', 'C12_list_entry',
+            'C12_badmailfrom', 'C12_badcc', 'C12_helo', 'C12_ipbl', 'C12_soberg', 'C12_check2822', 'C12_check2822_all', 'C12_nomail',
+            'C12_forceesmtp', 'C12_dnsbl', 'C12_dnsbl_unfixed_refuted', 'C12_namebl', 'C12_namebl_unfixed_refuted', 'C12_fromdomain', 'C12_fromdomain_address',
+            'C12_filters_checker_sound']
 ENGINES = [dict(name='filters', c_sources=['filters_h.c', 'filters_real.c', 'filters_real2.c'], extract='Extract/Extract_filters.v',
-                driver='filters_driver.ml', accepts=lambda c: c.startswith('cc '))]
+                driver='filters_driver.ml', accepts=lambda c: c.startswith('cc ')),
+           dict(name='rfilters', c_sources=['rfilters_h.c', 'rfilters_real.c'], extract='Extract/Extract_rfilters.v',
+                driver='rfilters_driver.ml', accepts=lambda c: c.startswith('fd '))]
 RULE = ('cases = (outcome of each of the 16 filters named in rcpt_cbs[], filterconf bytes at user / domain / global level incl. '
         'absent directory, absent file, empty file, probe key): outcome vectors all-pass / one temporary, error or hard result at '
         'every position / temporary before and after a hard result / whitelist before and after a denial / two different hard '
         'results / random; files built from lines about fail_hard_on_temp, nonexist_on_block and the probe key in the forms bare, '
         '=1, =0, =-1, =-5, =<big>, =LONG_MAX(+1), =LONG_MIN(-1), empty value, junk value, +3, CR before the value, longer and shorter '
         'key, duplicates with the first line 0, comments, escaped #, trailing blanks, inner blanks (load error), NUL bytes, no final '
-        'newline; stage 2 cases with the real cb_boolean/smtpbugs/spf/usersize and sessions (SPF status, TLS, AUTH, ESMTP, MAIL FROM shape, SIZE, '
+        'newline; rfilters engine: one real filter function per case (badcc, badmailfrom, check2822, dnsbl, forceesmtp, fromdomain, helo, ipbl, namebl, '
+        'nomail, soberg) on a generated tree of list / filterconf files at user, domain and global level with scripted DNS answers, MX lists and session; '
+        'stage 2 cases with the real cb_boolean/smtpbugs/spf/usersize and sessions (SPF status, TLS, AUTH, ESMTP, MAIL FROM shape, SIZE, '
         'blanks in the current RCPT TO line, space-bug flag already recorded by MAIL FROM or by an earlier real RCPT TO); non-trivial = the C rejected the recipient or a probe returned a non-zero value; distinct by case text')
 TRUSTED_BASE = [
+    'rfilters engine: harness/rfilters_h.c + rfilters_real.c (all sixteen real filter files, rcpt_filters.c, getfile.c, vpop.c, addrsyntax.c, antispam.c, control.c, '
+    'match.c, mmap.c, dns_helpers.c, fmt.c; stand-ins for ask_dnsa/dnstxt, net_writen/netnwrite, log_*); ocaml/rfilters_driver.ml; reused models and theorems of '
+    'C14 (checkaddr, domainvalid), C16 (finddomain, check_ip4/6, ip4/ip6_matchnet, loadoneliner)',
+
     'Coq 8.16.1 kernel (coqc; coqchk in thorough); vm_compute only on closed terms built from generated constants (reply templates, enum values) and in the examples; no native_compute',
     'axioms: none (Print Assumptions: Closed under the global context for all theorems)',
     'translator tools/translators/filters.py: regexes over qsmtpd/commands.c (smtp_rcpt), qsmtpd/filters/rcpt_filters.c, include/qsmtpd/userfilters.h, userconf.h, '
@@ -31,6 +44,10 @@ TRUSTED_BASE = [
     '(capture), log_*, tarpit, err_control*; gcc 12 -O1 ASan+UBSan -DNDEBUG vs. the production build',
 ]
 ASSUMPTIONS = [
+    'rfilters engine: DNS is an oracle (the sequence of answers of ask_dnsa(); dnstxt() fails); the reply of a filter is captured before net_writen() folds it (C10); '
+    'xmitstat fields are set directly (HELO status, SPF status, frommx, fromdomain result); sender and recipient addresses have one @ (addrsyntax, C14); '
+    'file access errors other than "no such file" (EACCES, ENOLCK, ENOMEM) are not exercised; cb_wildcardns is not modelled',
+
     'the individual filters are replaced by stand-ins returning the case\'s outcome, except cb_boolean, cb_smtpbugs, cb_spf, cb_usersize which stage 2 runs for real '
     '(modelled for sessions without spfignore / rspf / spfstrict files and with an empty reverse lookup); the other twelve real filters are outside C12\'s theorems',
     'a filter returning FILTER_DENIED_WITH_MESSAGE has sent a 5xx reply itself (the stand-in sends 554 5.7.1)',
@@ -214,6 +231,8 @@ def _spacebug(rng):
 
 
 def gen_cases(engine, rng, tier):
+    if engine == 'rfilters':
+        return RF.gen_cases(rng, tier)
     n = 2500 if tier == 'quick' else 40000
     cases = []
     for i in range(n):
@@ -237,6 +256,8 @@ def _kv(c_out):
 
 
 def nontrivial(case, c_out):
+    if case.startswith('fd '):
+        return c_out.startswith('r=') and not c_out.startswith('r=1 ')
     if not c_out.startswith('rc='):
         return False
     kv = _kv(c_out)
@@ -250,7 +271,7 @@ def classify(case, c_out):
     error", and the filter has answered itself with its 451 (which it does when an spfpolicy is in force and
     fail_hard_on_temp is not; Coq: Spec/FiltersSpec.v in_spf_temp_class)."""
     f = case.split()
-    if len(f) != 7 or not c_out.startswith('rc='):
+    if f[0] != 'cc' or len(f) != 7 or not c_out.startswith('rc='):
         return None
     out, sess = R.unhx(f[1]), R.unhx(f[6])
     if len(out) == NF and out[REAL_IDS['spf']] == REAL and len(sess) == 5 and (sess[0] & 15) == SPF_TEMPERROR \
@@ -261,8 +282,15 @@ def classify(case, c_out):
 
 def distribution(results):
     d = {}
+    names = {v: k for k, v in RF.ID.items()}
     for r in results:
         c = r['c']
+        if r['case'].startswith('fd '):
+            k = 'real %s: %s' % (names.get(int(r['case'].split()[1], 16), '?'), c.split()[0])
+            d[k] = d.get(k, 0) + 1
+            s = 'rspec_' + r['spec']
+            d[s] = d.get(s, 0) + 1
+            continue
         if c.startswith('rc='):
             kv = _kv(c)
             if kv.get('ctrlerr') != '0':
